@@ -15,6 +15,11 @@ Fixpoint wf_term (w : world) (d : term) : Prop :=
   | TSelect d _ _ | TSelectAll d | TShuffle d _ | TSort d _ | TGroup d _ | TCopy d => wf_term w d
   | TNew _ seeded => seeded = true
   | TLegacyAgents => legacy_agents w <> []
+  | TXAgents s =>           (* exactly the EMPTY legacy space is excluded; a space with a generator must have the model's *)
+      match znth (w_xspaces w) s with
+      | Some x => if xs_legacy x then xs_members x <> [] else xs_gen x = MODEL_GEN
+      | None => True
+      end
   end.
 
 Fixpoint wf_cterm (d : cterm) : Prop :=
@@ -41,6 +46,9 @@ Proof.
   - destruct (eval w d) as [c1|e] eqn:E1; [|discriminate]. inversion He; subst; cbn. reflexivity.
   - inversion He; subst; cbn. exact Hs.
   - destruct (legacy_agents w) eqn:El; [congruence|]. inversion He; reflexivity.
+  - destruct (znth (w_xspaces w) s) as [x|]; [|discriminate]. inversion He; subst; cbn.
+    unfold xs_agents_gen, legacy_fallback. destruct (xs_legacy x); [|exact Hwf].
+    destruct (xs_members x); [congruence|reflexivity].
 Qed.
 
 Lemma cgen_propagates w d c :
@@ -77,6 +85,11 @@ Definition wf_op (w : world) (o : op) : Prop :=
   match o with
   | Derive d | ShuffleDo d _ => wf_term w d
   | DeriveC d | RandomCell d _ | RandomAgent d _ => wf_cterm d
+  | XCreate s _ =>           (* the experimental ContinuousSpace was built with random=model.random *)
+      match znth (w_xspaces w) s with
+      | Some x => if xs_legacy x then True else xs_gen x = MODEL_GEN
+      | None => True
+      end
   | _ => True
   end.
 
@@ -88,22 +101,11 @@ Fixpoint run_wf (srt : bool) (w : world) (ops : list op) : Prop :=
 
 Definition no_foreign_gen (ob : list Z) : Prop := hd 0 ob <> OTHER_GEN.
 
+Ltac break_match :=
+  match goal with |- context [match ?x with _ => _ end] => destruct x eqn:? end.
+
 Lemma step_sgen srt w o : w_sgen (fst (step srt w o)) = w_sgen w.
-Proof.
-  destruct o; cbn [step]; try reflexivity.
-  - destruct (find_agent _ _); reflexivity.
-  - destruct (znth _ _); reflexivity.
-  - destruct (find_agent _ _); [|reflexivity]. destruct (lpos_of _ _); [reflexivity|].
-    destruct (_ && _); reflexivity.
-  - destruct (lpos_of _ _); reflexivity.
-  - destruct (find_agent _ _); [|reflexivity]. destruct (choose_empty _ _ _ _ _); reflexivity.
-  - destruct (eval w d); [|reflexivity]. destruct (shuffle_apply _ _); reflexivity.
-  - destruct (ceval w d); [|reflexivity]. destruct (choice_from _ _); reflexivity.
-  - destruct (ceval w d); [|reflexivity]. destruct (choice_from _ _); reflexivity.
-  - destruct (try_random _ _); reflexivity.
-  - destruct (lpos_of _ _); [|reflexivity]. destruct (filter _ ps); [reflexivity|].
-    destruct (one_of_choice _ _ _ _ _); reflexivity.
-Qed.
+Proof. destruct o; cbn [step]; repeat break_match; reflexivity. Qed.
 
 Lemma obs_err_head k : 0 < k -> hd 0 (obs_err k) <> OTHER_GEN.
 Proof.
@@ -151,6 +153,7 @@ Proof.
   - destruct (eval w d); [discriminate|]. inversion E; subst. auto.
   - discriminate.
   - destruct (legacy_agents w); discriminate.
+  - destruct (znth _ _); inversion E. unfold E_NOSUCH; lia.
 Qed.
 
 Lemma ceval_err_pos w d e : ceval w d = Err e -> 0 < e.
@@ -159,6 +162,18 @@ Proof.
   - destruct (zassoc _ _); inversion E. unfold E_NOSUCH; lia.
   - destruct (ceval w d); [destruct only_empty, at_most; discriminate|]. inversion E; subst. auto.
   - destruct (ceval w d); [discriminate|]. inversion E; subst. auto.
+Qed.
+
+Lemma ins_by_length b x l : length (ins_by b x l) = S (length l).
+Proof. induction l as [|y t IH]; cbn; [reflexivity|]. destruct (b x y); cbn; [reflexivity|]. rewrite IH. reflexivity. Qed.
+
+Lemma sort_by_length b l : length (sort_by b l) = length l.
+Proof. induction l as [|x t IH]; cbn; [reflexivity|]. rewrite ins_by_length. unfold sort_by in IH. rewrite IH. reflexivity. Qed.
+
+Lemma xs_members_nonempty x : xs_items x <> [] -> xs_members x <> [].
+Proof.
+  intros H Hm. apply H. unfold xs_members in Hm. apply (f_equal (@length Z)) in Hm.
+  destruct (xs_keyed x); [rewrite sort_by_length in Hm|]; rewrite map_length in Hm; destruct (xs_items x); (reflexivity || discriminate).
 Qed.
 
 Lemma step_no_foreign srt w o :
@@ -180,7 +195,7 @@ Proof.
   - destruct (find_agent _ _); [|exact HE2]. destruct (lpos_of _ _); [exact HE2|].
     destruct (_ && _); cbn; [discriminate|exact HE2].
   - destruct (lpos_of _ _); cbn; [discriminate|exact HE2].
-  - destruct (find_agent _ _); [|exact HE2].
+  - destruct (in_any_xspace _ _); [exact HE2|]. destruct (find_agent _ _); [|exact HE2].
     destruct (choose_empty _ _ _ _ _) as [p|e] eqn:E; cbn [snd]; [cbn; discriminate|].
     apply obs_err_head.
     unfold choose_empty in E.
@@ -206,6 +221,18 @@ Proof.
     destruct (one_of_choice _ _ _ _ _) eqn:E; [cbn; discriminate|].
     apply obs_err_head. eapply one_of_err_pos. exact E.
   - cbn. discriminate.
+  - destruct (find_agent _ _); [|exact HE2]. destruct (znth _ _) as [x|]; [|exact HE2].
+    destruct (_ && _) eqn:Ec; [|exact HE2]. cbn [snd hd].
+    apply andb_true_iff in Ec. destruct Ec as [Ec _]. apply andb_true_iff in Ec. destruct Ec as [Ec _].
+    apply andb_true_iff in Ec. destruct Ec as [Ec _].
+    unfold xs_agents_gen. cbn [xs_set_items xs_legacy]. rewrite Ec.
+    assert (xs_members (xs_set_items x (xs_items x ++ [(k, a)])) <> []) as Hne.
+    { apply xs_members_nonempty. cbn [xs_set_items xs_items]. destruct (xs_items x); discriminate. }
+    destruct (xs_members _); [congruence|cbn; discriminate].
+  - destruct (znth _ _) as [x|]; [|exact HE2]. destruct (_ && _); [cbn; discriminate|exact HE2].
+  - destruct (znth _ _) as [x|] eqn:Ez; [|exact HE2]. destruct (xs_legacy x) eqn:El; cbn [negb]; [exact HE2|].
+    cbn [snd hd]. unfold xs_agents_gen. cbn [xs_set_items xs_legacy xs_gen]. rewrite El.
+    try rewrite Ez in Hwf. try rewrite El in Hwf. rewrite Hwf. discriminate.
 Qed.
 
 Lemma history_no_foreign srt ops : forall w,
@@ -374,7 +401,7 @@ Lemma unsorted_choice_depends_on_order :
     snd (step false w (MoveToEmpty a pi k [])) <> snd (step false w (MoveToEmpty a pi' k [])).
 Proof.
   exists {| w_agents := [{| a_id := 1; a_cls := 0; a_key := 0 |}]; w_next := 2; w_sgen := 0; w_cells := [];
-            w_conn := []; w_lw := 2; w_lh := 1; w_lgrid := []; w_cutoff := 10 |}.
+            w_conn := []; w_lw := 2; w_lh := 1; w_lgrid := []; w_cutoff := 10; w_xspaces := [] |}.
   exists 1, [(0, 0); (1, 0)], [(1, 0); (0, 0)], 0. split; [apply perm_swap|].
   vm_compute. discriminate.
 Qed.
@@ -497,13 +524,17 @@ Proof.
   - destruct (znth _ _); cbn; auto.
   - destruct (find_agent _ _); [|auto]. destruct (lpos_of _ _); [auto|]. destruct (_ && _); cbn; auto.
   - destruct (lpos_of _ _); cbn; auto.
-  - destruct (find_agent _ _); [|auto]. destruct (choose_empty _ _ _ _ _); cbn; auto.
+  - destruct (in_any_xspace _ _); [auto|]. destruct (find_agent _ _); [|auto]. destruct (choose_empty _ _ _ _ _); cbn; auto.
   - destruct (eval w d); [|auto]. destruct (shuffle_apply _ _); cbn; auto.
   - destruct (ceval w d); [|auto]. destruct (choice_from _ _); cbn; auto.
   - destruct (ceval w d); [|auto]. destruct (choice_from _ _); cbn; auto.
   - destruct (try_random _ _); cbn; auto.
   - destruct (lpos_of _ _); [|auto]. destruct (filter _ ps); [auto|].
     destruct (one_of_choice _ _ _ _ _); cbn; auto.
+  - destruct (find_agent _ _); [|auto]. destruct (znth _ _); [|auto]. destruct (_ && _); cbn; auto.
+  - destruct (znth _ _); [|auto]. destruct (_ && _); cbn; auto.
+  - destruct (znth _ _); [|auto]. destruct (negb _); [|auto]. unfold all_ids. cbn. rewrite map_app. split; [|lia].
+    eapply incr_in_app; [exact Hn|exact Hr| |lia]. cbn. split; [lia|exact I].
 Qed.
 
 (* re-seeding changes no collection: whatever was derivable before a reset evaluates to the same collection, with
@@ -618,6 +649,10 @@ Fixpoint gen_spec (w : world) (d : term) : genid :=
   | TNew _ seeded => if seeded then MODEL_GEN else OTHER_GEN
   | TSpaceAgents => w_sgen w
   | TLegacyAgents => match legacy_agents w with [] => OTHER_GEN | _ => MODEL_GEN end
+  | TXAgents s => match znth (w_xspaces w) s with
+                  | Some x => if xs_legacy x then legacy_fallback (xs_members x) else xs_gen x
+                  | None => OTHER_GEN
+                  end
   end.
 
 Fixpoint cgen_spec (w : world) (d : cterm) : genid :=
@@ -643,6 +678,23 @@ Proof.
   - destruct (eval w d) as [c1|e]; [|discriminate]. inversion He; subst; cbn. reflexivity.
   - inversion He; reflexivity.
   - destruct (legacy_agents w); inversion He; reflexivity.
+  - destruct (znth _ _); inversion He; reflexivity.
+Qed.
+
+(* the documented first-agent fall-back as a function of its own: it yields the model's generator exactly when the
+   legacy space holds an agent *)
+Lemma legacy_fallback_spec l : legacy_fallback l = MODEL_GEN <-> l <> [].
+Proof. destruct l; cbn; unfold OTHER_GEN, MODEL_GEN; split; intros H; try congruence; discriminate. Qed.
+
+Lemma xagents_gen_spec w s x :
+  znth (w_xspaces w) s = Some x ->
+  eval w (TXAgents s) = Ok {| members := xs_members x; gen := xs_agents_gen x |} /\
+  (xs_legacy x = true -> (xs_agents_gen x = MODEL_GEN <-> xs_members x <> [])) /\
+  (xs_legacy x = false -> xs_agents_gen x = xs_gen x).
+Proof.
+  intros H. cbn [eval]. rewrite H. split; [reflexivity|]. unfold xs_agents_gen. split; intros ->.
+  - apply legacy_fallback_spec.
+  - reflexivity.
 Qed.
 
 Lemma cgen_refines_spec w d c : ceval w d = Ok c -> gen c = cgen_spec w d.
